@@ -229,6 +229,29 @@ class DictV:
         return f'DictV({list(self.d)})'
 
 
+class StopIter(Exception):
+    """python-level signal: an abstract iterator is exhausted"""
+
+
+class IterV:
+    """an iterator object: a position in a (live) list of abstract values, or a wrapped python generator of abstract values"""
+    not_none = True
+
+    def __init__(self, items=None, gen=None):
+        self.items, self.pos, self.gen = items, 0, gen
+
+    def pull(self):
+        if self.gen is not None:
+            try:
+                return next(self.gen)
+            except StopIteration:
+                raise StopIter()
+        if self.pos >= len(self.items):
+            raise StopIter()
+        self.pos += 1
+        return self.items[self.pos - 1]
+
+
 class SetV:
     def __init__(self, items=None):
         self.items = dict.fromkeys(items or [])
@@ -313,6 +336,9 @@ class Seg:
         return f'{self.kind}{self.n}<{vrepr(self.val) if self.val is not None else ""}>'
 
 
+_SEG_BASES = {}
+
+
 class BA:
     """model of bitarray.bitarray: a list of segments with concrete lengths"""
     def __init__(self, segs=None):
@@ -325,8 +351,20 @@ class BA:
             return
         if s.kind == 'k' and self.segs and self.segs[-1].kind == 'k':
             self.segs[-1] = Seg(self.segs[-1].n + s.n, 'k', self.segs[-1].val + s.val)
-        else:
-            self.segs.append(Seg(s.n, s.kind, s.val))
+            return
+        if s.kind == '?' and self.segs and self.segs[-1].kind == '?':
+            # two adjacent pieces cut out of one segment, in order and contiguous, are that stretch of the segment again
+            a, b = self.segs[-1].val, s.val
+            if isinstance(a, Term) and isinstance(b, Term) and a.op == b.op == 'bitslice' and a.a[0] is b.a[0] and a.a[2].v == b.a[1].v:
+                base = a.a[0]
+                lo, hi = a.a[1].v, b.a[2].v
+                kind, n = base.op[4], int(base.op[5:])
+                if lo == 0 and hi == n:
+                    self.segs[-1] = Seg(n, kind, base.a[0])
+                else:
+                    self.segs[-1] = Seg(hi - lo, '?', Term('bitslice', base, K(lo), K(hi)))
+                return
+        self.segs.append(Seg(s.n, s.kind, s.val))
 
     def __len__(self):
         return sum(s.n for s in self.segs)
@@ -353,8 +391,17 @@ class BA:
                     out._push(s)
                 elif s.kind == 'k':
                     out._push(Seg(b - a, 'k', s.val[a - pos:b - pos]))
+                elif s.kind == '?' and isinstance(s.val, Term) and s.val.op == 'bitslice':
+                    base, off = s.val.a[0], s.val.a[1].v          # a piece of a piece: express it in the original segment
+                    out._push(Seg(b - a, '?', Term('bitslice', base, K(off + a - pos), K(off + b - pos))))
                 else:
-                    out._push(Seg(b - a, '?', Term('bitslice', Term(f'seg_{s.kind}{s.n}', s.val), K(a - pos), K(b - pos))))
+                    key = (id(s.val), s.kind, s.n) if s.val is not None else None
+                    base = _SEG_BASES.get(key) if key else None
+                    if base is None:
+                        base = Term(f'seg_{s.kind}{s.n}', s.val)
+                        if key:
+                            _SEG_BASES[key] = base        # the Term keeps s.val alive, so the id stays valid
+                    out._push(Seg(b - a, '?', Term('bitslice', base, K(a - pos), K(b - pos))))
             pos += s.n
         return out
 
